@@ -47,8 +47,17 @@ TIterGrow ==
 
 OkAllowed == ~exhausted /\ facts <= mf /\ iters <= mi /\ Rec[l].iterations = iters /\ Rec[l].facts = facts
 
+\* save + restore: nothing is evaluated and the restored authorizer carries the same budget state
+IsSnap == l <= Len(Rec) /\ Rec[l].ev = "return" /\ Rec[l].name = "snapshot"
+SnapAllowed == Rec[l].outcome = "ok" /\ Rec[l].iterations = iters /\ Rec[l].facts = facts
+
+TReturnSnapshot ==
+    /\ IsEvent("return") /\ IsSnap
+    /\ dev' = IF SnapAllowed THEN dev ELSE Append(dev, l)
+    /\ UNCHANGED <<mf, mi, mt, cost, elapsed, facts, iters, exhausted>>
+
 TReturnOk ==
-    /\ IsEvent("return") /\ Rec[l].outcome = "ok"
+    /\ IsEvent("return") /\ Rec[l].outcome = "ok" /\ ~IsSnap
     /\ dev' = IF OkAllowed THEN dev ELSE Append(dev, l)
     /\ UNCHANGED <<mf, mi, mt, cost, elapsed, facts, iters, exhausted>>
 
@@ -56,18 +65,18 @@ TReturnOk ==
 LimitAllowed == (exhausted \/ facts >= mf \/ iters >= mi \/ elapsed >= mt) /\ Rec[l].iterations = iters
 
 TReturnLimit ==
-    /\ IsEvent("return") /\ Rec[l].outcome = "limit"
+    /\ IsEvent("return") /\ Rec[l].outcome = "limit" /\ ~IsSnap
     /\ exhausted' = TRUE
     /\ dev' = IF LimitAllowed THEN dev ELSE Append(dev, l)
     /\ UNCHANGED <<mf, mi, mt, cost, elapsed, facts, iters>>
 
 \* any other outcome (panic, unexpected error) is a deviation
 TReturnOther ==
-    /\ IsEvent("return") /\ Rec[l].outcome \notin {"ok", "limit"}
+    /\ IsEvent("return") /\ Rec[l].outcome \notin {"ok", "limit"} /\ ~IsSnap
     /\ dev' = Append(dev, l)
     /\ UNCHANGED <<mf, mi, mt, cost, elapsed, facts, iters, exhausted>>
 
-TraceNext == TScenario \/ TCall \/ TIterIdle \/ TIterGrow \/ TReturnOk \/ TReturnLimit \/ TReturnOther
+TraceNext == TScenario \/ TCall \/ TIterIdle \/ TIterGrow \/ TReturnOk \/ TReturnLimit \/ TReturnOther \/ TReturnSnapshot
 TraceSpec == TraceInit /\ [][TraceNext]_tvars
 
 \* the whole trace must be consumed; deviations are reported at the end
